@@ -203,7 +203,9 @@ def oracle(ctx, bases, compiler=None):
                     hit = cname
                     break
             rec = {"base": bases[k][0], "variant": vname, "what": why, "base_text": btext, "variant_text": text,
-                   "flags": "nostd" if bases[k][1] == "gen" else "std", "class": hit}
+                   "flags": "nostd" if bases[k][1] == "gen" else "std", "class": hit,
+                   "main": "/main.sy" if bases[k][1] == "gen" else bases[k][2],
+                   "program": bases[k][2] if bases[k][1] == "gen" else None}
             if hit and hit in known:
                 known_hits.setdefault(hit, []).append(rec)
             else:
@@ -341,14 +343,61 @@ def always(ctx):
 # ------------------------------------------------------------------------------------------------
 # search: shrink an oracle failure
 
-def shrink_variant(ctx, rec, compiler=None):
-    """delete lines from base and variant together is not possible in general (they differ in line structure);
-    shrink the VARIANT towards the base instead: undo differences line by line is also ill-defined, so shrink
-    the pair (base, variant) when both are renderings of one generated program, else return as is."""
+def _disagree(main, flags, a, b, compiler):
+    out = compiler([compile_case(main, a, flags), compile_case(main, b, flags)])
+    return outcome(out[0]) != outcome(out[1])
+
+
+def _smaller_programs(prog):
+    """programs with one top-level item, or one statement of one function body, removed"""
+    out = []
+    for i in range(len(prog)):
+        if prog[i][1] != "start":
+            out.append(prog[:i] + prog[i + 1:])
+    for i, d in enumerate(prog):
+        if d[0] == "fn":
+            body = d[4]
+            for j in range(len(body)):
+                if body[j][0] == "ret":
+                    continue
+                out.append(prog[:i] + [(d[0], d[1], d[2], d[3], body[:j] + body[j + 1:])] + prog[i + 1:])
+    return out
+
+
+def shrink_generated(ctx, rec, compiler):
+    """shrink a failing generated program: drop items/statements while the same single surface feature (tried
+    with a few style seeds) still makes the canonical and the variant rendering disagree"""
+    feature = rec["variant"].split(":")[0]
+    feats = [feature] if feature in G.STYLE_FEATURES else \
+        [f for f in rec["variant"].split(":", 1)[1].split("+") if f in G.STYLE_FEATURES]
+    prog = rec["program"]
+
+    def fails(p):
+        base = G.render_program(p)
+        for seed in range(4):
+            var = G.render_program(p, G.Style(seed, **{f: True for f in feats}))
+            if _disagree("/main.sy", "nostd", base, var, compiler):
+                return base, var
+        return None
+    cur = fails(prog)
+    if cur is None:
+        return rec
+    for _ in range(60):
+        for cand in _smaller_programs(prog):
+            got = fails(cand)
+            if got:
+                prog, cur = cand, got
+                break
+        else:
+            break
+    rec = dict(rec)
+    rec["base_text"], rec["variant_text"] = cur
+    rec["program"] = None
     return rec
 
 
 def search(ctx, compiler=None):
+    comp = compiler or (lambda cases: vlib.harness("compile", cases, timeout_s=20))
     got = getattr(ctx, "c14_oracle", None)
     if got is None or compiler is not None:
         failures, _, _ = oracle(ctx, gen_bases(ctx), compiler)
@@ -356,13 +405,13 @@ def search(ctx, compiler=None):
         failures = got[0]
     if not failures:
         return None
-    failures.sort(key=lambda f: len(f["variant_text"]))
+    failures.sort(key=lambda f: (f.get("program") is None, len(f["variant_text"])))
     f = failures[0]
-    # line-level shrinking for generated programs: re-render smaller programs is done by the generator size;
-    # here: drop top-level items that are not needed (text-level, both texts must still disagree)
+    if f.get("program") is not None:
+        f = shrink_generated(ctx, f, comp)
     return {"base": f["base"], "variant": f["variant"], "what": f["what"], "flags": f["flags"],
-            "base_text": f["base_text"], "variant_text": f["variant_text"], "failing_inputs_found": len(failures),
-            "replay_cmd": "python3 tools/check.py C14 --replay <this file>"}
+            "main": f.get("main", "/main.sy"), "base_text": f["base_text"], "variant_text": f["variant_text"],
+            "failing_inputs_found": len(failures), "replay_cmd": "python3 tools/check.py C14 --replay <this file>"}
 
 
 def replay_known(ctx, kf):
@@ -383,7 +432,7 @@ def replay(ctx, rep):
         print("nothing to replay: no failing input in this file")
         return 0
     vlib.build_harness()
-    main = "/main.sy"
+    main = fi.get("main", "/main.sy")
     out = vlib.harness("compile", [compile_case(main, fi["base_text"], fi.get("flags", "nostd")),
                                    compile_case(main, fi["variant_text"], fi.get("flags", "nostd"))])
     a, b = outcome(out[0]), outcome(out[1])
@@ -433,6 +482,9 @@ def selftest():
         f, _, _ = oracle(Ctx, bases, mutant(pat, rep))
         assert f, "mutation %s not detected" % name
         print("selftest %-34s -> caught: %s / %s: %s" % (name, f[0]["base"], f[0]["variant"], f[0]["what"][:70]))
+    found = search(Ctx, mutant(r"\bloop do\b", "loop false do"))
+    assert found and "loop" in found["variant_text"], "search did not return a failing input"
+    print("selftest search+shrink: %d lines base, variant:\n%s" % (found["base_text"].count("\n"), found["variant_text"]))
     print("selftest ok")
 
 
